@@ -32,7 +32,7 @@ COMPONENTS = {"real": ["ECAgent.Collectors.AgentCollector.collect", "FileCollect
                        "overflow/finalisation; crash drops buffers)", "mutator systems and collect() bodies are harness code"]}
 PROBES = ["empty_record_suppressed", "collector_off_window", "removed_by_higher_priority_same_step",
           "added_by_higher_priority_same_step", "changed_after_collector_turn", "composite_used", "value_zero_recorded",
-          "crash_at_flush_boundary", "crash_mid_flush", "real_file", "composite_shared_dict", "empty_collection", "empty_flush",
+          "crash_at_flush_boundary", "crash_mid_flush", "real_file", "composite_shared_dict", "empty_string_record", "empty_collection", "empty_flush",
           "preexisting_content", "two_file_collectors", "buffer_overflow_mid_flush"]
 TECHNIQUE = "deterministic simulation: population changing on a seeded schedule inside timesteps vs a replaying reference; simulated disk with crash points and the conservation invariant file + held = collected"
 LEVEL_TEXT = ("Seeded search over population-change schedules, collector windows and disk behaviour; after every timestep the "
@@ -101,6 +101,7 @@ def gen_file_arm(rng, tier):
     for i in range(rng.choice([1, 1, 1, 2])):
         c = {"id": f"fc{i}", "file": f"out{i}.txt", "write_count": rng.choice([0, 0, 1, 1, 2, 3, 4, 6]),
              "prio": rng.choice([None, None, 0, -2]), "counts": [rng.choice([0, 1, 1, 2, 3]) for _ in range(rng.randint(1, 6))],
+             "empties": rng.choice([0, 0, 0, 2, 3]),
              "pre": rng.choice(["", "", "", "OLD;"])}
         c.update(gen_window(rng, steps))
         cols.append(c)
@@ -318,6 +319,7 @@ class RecFile(COL.FileCollector):
         super().__init__(spec["id"], model, filename, **kw)
         self.spec, self.world = spec, world
         self.n_coll = 0
+        self.n_rec = 0
         self.collected = []
 
     def collect(self):
@@ -325,8 +327,13 @@ class RecFile(COL.FileCollector):
         counts = self.spec["counts"] or [1]
         k = counts[self.n_coll % len(counts)]
         self.n_coll += 1
+        every = int(self.spec.get("empties", 0) or 0)
         for j in range(k):
-            rec = f"{self.id}:{t}.{j};"
+            self.n_rec += 1
+            # every `empties`-th record is the empty string: a legal record that adds nothing to the text
+            rec = "" if every and self.n_rec % every == 0 else f"{self.id}:{t}.{j};"
+            if rec == "":
+                self.world.ctx.probe("empty_string_record")
             self.records.append(rec)
             self.collected.append(rec)
         if k == 0:
